@@ -94,6 +94,14 @@ def trace_validate(chk, module, trace_path, describe, timeout=900, env=None):
         case = {"trace_record": rec, "trace_spec": module, "trace_index": idx}
         # what the trace specification read besides the trace (catalogue, baseline, world, mode): kept with the case so
         # that a replay does not depend on the work directory of the run that found it
+        if rec.get("k") == "walk":
+            # a walk refers to the tree record before it: keep the program text, the replay searches it again
+            for back in range(idx - 2, -1, -1):
+                if recs[back].get("k") == "tree":
+                    if recs[back].get("text"):
+                        case["source"] = recs[back]["text"]
+                        case.pop("trace_record", None)
+                    break
         case["env"] = {k: v for k, v in (env or {}).items() if not os.path.exists(str(v))}
         case["env_files"] = {k: open(v).read() for k, v in (env or {}).items()
                              if os.path.isfile(str(v)) and os.path.getsize(v) < 400000}
@@ -117,7 +125,16 @@ def replay(chk, pid, path):
 
     def generic(rec, extra=None):
         return ("replay:%s" % (extra if extra is not None else doc.get("signature", "")), "the recorded case still violates the specification")
-    if case.get("source") and pid in tv_of and not case.get("expected"):
+    if case.get("canon") and case.get("gaps") is not None:
+        # a re-layout case: flag tokens from the one-token-per-line text, lines from the re-laid-out text, both again
+        cpath = os.path.join(d, "replay-case.json")
+        with open(cpath, "w") as f:
+            json.dump(case, f)
+        tpath = os.path.join(d, "replay-trace.ndjson")
+        chk.add_harness(vlib.harness(hb, ["replay-layout", cpath, tpath]), count_traces=False)
+        trace_validate(chk, "TV_C02", tpath, lambda rec, det: generic(rec, det))
+        chk.rule = "replay: the recorded pair of layouts analysed again by the real detector and validated by TV_C02"
+    elif case.get("source") and pid in tv_of and not case.get("expected"):
         spath = os.path.join(d, "replay-source.sol")
         with open(spath, "w") as f:
             f.write(case["source"])
@@ -133,6 +150,69 @@ def replay(chk, pid, path):
             json.dump(case, f)
         chk.add_harness(vlib.harness(hb, ["replay-call", cpath]))
         chk.rule = "replay: the recorded call re-executed against the real code"
+    elif pid in ("C11", "C12", "C13") and ((case.get("trace_spec") == "TV_Report" and case["trace_record"].get("findings") is not None)
+                                           or "findings_a" in case):
+        # a report case: the findings map is rendered again by the real generate_*_report (several insertion orders)
+        cpath = os.path.join(d, "replay-case.json")
+        with open(cpath, "w") as f:
+            json.dump(case, f)
+        tpath = os.path.join(d, "replay-trace.ndjson")
+        res = vlib.harness(hb, ["replay-report", cpath, "16", tpath])
+        if pid != "C13":
+            res["violations"] = [v for v in res["violations"] if not v["sig"].startswith("nondeterministic")]
+        chk.add_harness(res, count_traces=False)
+        recs = vlib.read_ndjson(tpath)
+        if pid == "C13":
+            recs = [r for r in recs if r["k"] == "same"]
+            vlib.write_ndjson(tpath, recs)
+        if recs:
+            trace_validate(chk, "TV_Report", tpath, generic, env={"MODE": pid})
+        chk.rule = "replay: the recorded findings map rendered again by the real report generator and validated by TV_Report"
+    elif case.get("trace_spec") == "TV_DirWalk" or ("tree" in case and "pats" in case and "cat" in case):
+        # a directory case: the tree is materialised again, the files are analysed alone again, analyze_dir runs again
+        cpath = os.path.join(d, "replay-case.json")
+        with open(cpath, "w") as f:
+            json.dump(case, f)
+        tpath = os.path.join(d, "replay-trace.ndjson")
+        scratch = vlib.scratch_dir(pid + "r")
+        try:
+            res = vlib.harness(hb, ["replay-dir", cpath, prepare_corpus(), scratch, tpath])
+        finally:
+            shutil.rmtree(scratch, ignore_errors=True)
+        chk.add_harness(res, count_traces=False)
+        if os.path.exists(tpath) and os.path.getsize(tpath) > 0:
+            trace_validate(chk, "TV_DirWalk", tpath, generic)
+        chk.rule = "replay: the recorded tree materialised again and analysed by the real analyze_dir, validated by TV_DirWalk"
+    elif pid == "C18" and (case.get("trace_spec") == "TV_RunFs" or "mode" in case):
+        # the whole history of runs is executed again with the real binary (a clean-run case: the clean runs are)
+        sb = vlib.build_solstat_bin()
+        rec = case.get("trace_record")
+        recs = _c18_execute(chk, sb, [{"init": rec["init"], "history": rec["history"]}] if rec else [])
+        if recs:
+            tpath = os.path.join(d, "replay-trace.ndjson")
+            vlib.write_ndjson(tpath, recs)
+            trace_validate(chk, "TV_RunFs", tpath, _c18_describe)
+        chk.rule = "replay: the recorded history of runs executed again with the real binary on a fresh scratch tree and validated by TV_RunFs"
+    elif pid == "C14" and case.get("trace_spec") == "TV_Config" and case["trace_record"].get("k") == "run":
+        sb = vlib.build_solstat_bin()
+        cat = bindrive.extract_catalogue()
+        cpath = os.path.join(d, "catalogue.json")
+        with open(cpath, "w") as f:
+            json.dump(cat, f)
+        recs = _c14_execute(hb, sb, [{"input": case["trace_record"]["input"]}, {"input": case["trace_record"]["input"]}])
+        tpath = os.path.join(d, "replay-trace.ndjson")
+        vlib.write_ndjson(tpath, recs)
+        trace_validate(chk, "TV_Config", tpath, generic, env={"CATALOGUE": cpath})
+        chk.rule = "replay: the recorded input run again through the real binary (without and with a stale report) and validated by TV_Config"
+    elif pid == "C14" and case.get("trace_spec") == "TV_Solstat":
+        import system
+        sb = vlib.build_solstat_bin()
+        r0 = case["trace_record"]
+        recs, wpath = system.execute(hb, sb, [{"inp": r0["inp"], "rep0": r0["rep0"]}], d)
+        tpath = os.path.join(d, "replay-trace.ndjson")
+        vlib.write_ndjson(tpath, recs)
+        trace_validate(chk, "TV_Solstat", tpath, generic, env={"WORLD": wpath})
+        chk.rule = "replay: the recorded whole run executed again with the real binary and validated by TV_Solstat"
     elif case.get("trace_record") and case.get("trace_spec"):
         # observations that need a whole scenario (a directory tree, a run of the binary, a schedule): the recorded
         # observation is re-validated against the specification as it is now; re-execute with the quick check
@@ -321,7 +401,7 @@ def _layout_check(chk, tier, pid):
             det, verdict = why.split(":")
             return ("relayout-construct-line:%s:%s" % (det, verdict),
                     "%s on the re-laid-out %s reports %s: not the lines on which its constructs begin" % (det, rec["src"], rec["results"].get(det)),
-                    {"detector": det})
+                    {"detector": det, "source": rec.get("text", ""), "relayout_case": True})
         trace_validate(chk, "TV_Patterns", dpath, describe_p, env={"MODE": "ALL"}, timeout=3000)
 
     def describe(rec, det):
@@ -334,10 +414,16 @@ def _layout_check(chk, tier, pid):
     # attach the re-laid-out text to the replay files
     for v in chk.violations:
         case = v["replay"]
+        if case.get("relayout_case"):
+            case.pop("trace_record", None)
+            continue
         i = case.get("trace_index")
         if i and i <= len(texts):
             case["source"] = texts[i - 1]["text"]
+            case["canon"] = texts[i - 1].get("canon", "")
             rec = case.get("trace_record", {})
+            for k in ("n", "inj", "gaps", "inner"):
+                case[k] = rec.get(k)
             det = v["sig"].split(":", 1)[1] if ":" in v["sig"] else ""
             case["detector"] = det
             for dd in rec.get("dets", []):
@@ -666,22 +752,8 @@ def check_c15(chk, tier):
 import bindrive  # noqa: E402
 
 
-@prop("C14")
-def check_c14(chk, tier):
-    hb = vlib.build_harness("dev")
-    sb = vlib.build_solstat_bin()
-    d = wdir("C14")
-    cat = bindrive.extract_catalogue()
-    cpath = os.path.join(d, "catalogue.json")
-    with open(cpath, "w") as f:
-        json.dump(cat, f)
-    chk.extra["catalogue"] = cat
-    suffix = "quick" if tier == "quick" else "thorough"
-    r = vlib.tlc("MC_Config", "MC_Config.%s.cfg" % suffix, workers=8, timeout=1800, env={"CATALOGUE": cpath})
-    chk.add_tlc(r)
-    inputs = r.records.get("REPLAY", [])
-    if len(inputs) < 100:
-        raise ToolError("MC_Config generated only %d inputs" % len(inputs))
+def _c14_execute(hb, sb, inputs):
+    """Runs the real binary on every input [{"input": inp}] in a scratch working directory; records for TV_Config."""
     scratch = vlib.scratch_dir("C14")
     recs = []
     try:
@@ -731,6 +803,26 @@ def check_c14(chk, tier):
                 rc["obs"]["garbage"] = p["garbage"]
     finally:
         shutil.rmtree(scratch, ignore_errors=True)
+    return recs
+
+
+@prop("C14")
+def check_c14(chk, tier):
+    hb = vlib.build_harness("dev")
+    sb = vlib.build_solstat_bin()
+    d = wdir("C14")
+    cat = bindrive.extract_catalogue()
+    cpath = os.path.join(d, "catalogue.json")
+    with open(cpath, "w") as f:
+        json.dump(cat, f)
+    chk.extra["catalogue"] = cat
+    suffix = "quick" if tier == "quick" else "thorough"
+    r = vlib.tlc("MC_Config", "MC_Config.%s.cfg" % suffix, workers=8, timeout=1800, env={"CATALOGUE": cpath})
+    chk.add_tlc(r)
+    inputs = r.records.get("REPLAY", [])
+    if len(inputs) < 100:
+        raise ToolError("MC_Config generated only %d inputs" % len(inputs))
+    recs = _c14_execute(hb, sb, inputs)
     names = vlib.harness(hb, ["names-check", cpath])
     chk.add_harness(names, count_traces=False)
     recs.append(names["extra"]["names_record"])
@@ -802,22 +894,14 @@ def check_c14(chk, tier):
 # C18 (file-system effects) -- the real binary
 # ---------------------------------------------------------------------------
 
-@prop("C18")
-def check_c18(chk, tier):
-    hb = vlib.build_harness("dev")
-    sb = vlib.build_solstat_bin()
-    d = wdir("C18")
-    suffix = "quick" if tier == "quick" else "thorough"
-    r = vlib.tlc("MC_RunFs", "MC_RunFs.%s.cfg" % suffix, workers=4, timeout=1800)
-    chk.add_tlc(r)
-    hist = r.records.get("REPLAY", [])
-    if len(hist) < 500:
-        raise ToolError("MC_RunFs generated only %d histories" % len(hist))
-    for neg, inv in (("neg1", "AppendMode"), ("neg2", "ReadsStale")):
-        n = vlib.tlc("MC_RunFs", "MC_RunFs.%s.cfg" % neg, workers=2, timeout=300, expect_violation=True)
-        if n.violated != "Overwrite":
-            raise ToolError("negative control %s did not violate Overwrite" % inv)
-    chk.extra["negative_controls"] = ["AppendMode violates Overwrite", "ReadsStale violates Overwrite"]
+def _c18_describe(rec, why):
+    return ("runfs:%s:cwd=%s:via=%s:stale=%s" % (why, rec["cwd"], rec["via"], rec["stale"]),
+            "run %d of history %s (initial report files %s): exit=%s changed=%s report_is_clean=%s" % (
+                rec["step"], rec["history"], rec["init"], rec["obs"]["exit"], rec["obs"]["changed"], rec["obs"]["report_is_clean"]))
+
+
+def _c18_execute(chk, sb, hist):
+    """Executes histories of runs of the real binary on a scratch tree; returns the records for TV_RunFs."""
     scratch = vlib.scratch_dir("C18")
     recs = []
     try:
@@ -902,12 +986,6 @@ def check_c18(chk, tier):
             raise ToolError("the restricted runs do not produce distinguishable reports")
         stale = {"junk": b"previous junk\n", "R": clean["full"], "long": clean["full"] + b"\n" + clean["full"],
                  "sol": b"pragma solidity ^0.4.0;\ncontract X { function f() public { x++; selfdestruct(msg.sender); } }\n"}
-        cap = 800 if tier == "quick" else 6000
-        if len(hist) > cap + 100:
-            hist = sorted(hist, key=lambda h: json.dumps(h, sort_keys=True))
-            step = len(hist) // cap
-            hist = hist[vlib.seed() % step::step]
-        chk.extra["histories_run"] = len(hist)
         for h in hist:
             for c, p in cwds.items():
                 rp = os.path.join(p, "solstat_report.md")
@@ -940,17 +1018,39 @@ def check_c18(chk, tier):
                 visited.add(c)
     finally:
         shutil.rmtree(scratch, ignore_errors=True)
+    return recs
+
+
+@prop("C18")
+def check_c18(chk, tier):
+    hb = vlib.build_harness("dev")
+    sb = vlib.build_solstat_bin()
+    d = wdir("C18")
+    suffix = "quick" if tier == "quick" else "thorough"
+    r = vlib.tlc("MC_RunFs", "MC_RunFs.%s.cfg" % suffix, workers=4, timeout=1800)
+    chk.add_tlc(r)
+    hist = r.records.get("REPLAY", [])
+    if len(hist) < 500:
+        raise ToolError("MC_RunFs generated only %d histories" % len(hist))
+    for neg, inv in (("neg1", "AppendMode"), ("neg2", "ReadsStale")):
+        n = vlib.tlc("MC_RunFs", "MC_RunFs.%s.cfg" % neg, workers=2, timeout=300, expect_violation=True)
+        if n.violated != "Overwrite":
+            raise ToolError("negative control %s did not violate Overwrite" % inv)
+    chk.extra["negative_controls"] = ["AppendMode violates Overwrite", "ReadsStale violates Overwrite"]
+    cap = 800 if tier == "quick" else 6000
+    if len(hist) > cap + 100:
+        hist = sorted(hist, key=lambda h: json.dumps(h, sort_keys=True))
+        step = len(hist) // cap
+        hist = hist[vlib.seed() % step::step]
+    chk.extra["histories_run"] = len(hist)
+    recs = _c18_execute(chk, sb, hist)
     tpath = os.path.join(d, "trace.ndjson")
     vlib.write_ndjson(tpath, recs)
     chk.evaluations += len(recs)
     chk.nontrivial += sum(1 for x in recs if x["init"][x["cwd"]] != "absent" or x["step"] > 1)
     chk.samples.append(recs[len(recs) // 3])
 
-    def describe(rec, why):
-        return ("runfs:%s:cwd=%s:via=%s:stale=%s" % (why, rec["cwd"], rec["via"], rec["stale"]),
-                "run %d of history %s (initial report files %s): exit=%s changed=%s report_is_clean=%s" % (
-                    rec["step"], rec["history"], rec["init"], rec["obs"]["exit"], rec["obs"]["changed"], rec["obs"]["report_is_clean"]))
-    trace_validate(chk, "TV_RunFs", tpath, describe, timeout=1800)
+    trace_validate(chk, "TV_RunFs", tpath, _c18_describe, timeout=1800)
     chk.exhaustive = True
     chk.rule = ("TLC enumerates every history of <= 2 (thorough 3) runs over 4 working directories (the analysed directory, its "
                 "parent, a sub-directory of it, an unrelated one), 3 pattern selections (all / one / none) and 3 ways of naming the "
@@ -1051,6 +1151,9 @@ def _patterns_check(chk, tier, pid, max_records=None):
     chk.nontrivial += int(rtv.get("exercised", 0))
     for v in chk.violations:
         case = v["replay"]
+        if case.get("relayout_case"):
+            case.pop("trace_record", None)
+            continue
         i = case.get("trace_index")
         if i and i <= len(texts):
             case["source"] = texts[i - 1]["text"]
@@ -1203,6 +1306,9 @@ def check_c19(chk, tier):
         raise ToolError("only %s composition records were in scope" % rtv.get("exercised"))
     for v in chk.violations:
         case = v["replay"]
+        if case.get("relayout_case"):
+            case.pop("trace_record", None)
+            continue
         i = case.get("trace_index")
         if i and i <= len(texts):
             case["source"] = texts[i - 1]["text"]
